@@ -608,6 +608,6 @@ def units(prop, tier):
 #   _decap: enc[0] != 4 -> != 3                                                 1  _decap.call_pre (import_key domain), raises_iff.DeserializeError.only_if
 #   _verify_psk_inputs: len(psk) < 32 -> < 31                                   1  _verify_psk_inputs.raises_iff.ValueError.if
 #   seal: aad update dropped                                                    1  seal.ensures.value
-#   __init__: `if enc is None:` check disabled                                  2  (None reaches _decap: undecided at the time; now call_pre `enc is not None`)
+#   __init__: `if enc is None:` check disabled                                  1  __init__.call_pre (enc is not None, of _decap)
 #   benign: strxor operands swapped in _new_cipher                              0
 #   benign: locals ct, tag renamed in seal                                      0
